@@ -13,7 +13,7 @@ FACTS_FOR = {
     "C07": ["locks_VerifyRebuildReplica", "locks_addReplica", "verifyOrder", "verifyChainGuard", "verifySlices", "canAdd", "addReplicaNoLockRechecks", "addReplicaOrder", "writeWidensForWO", "widenForWO"],
     "C09": ["locks_RegisterReplica", "locks_Start", "canSignal", "electionLoop", "electionInit", "electionSkipsRebuildingRegistrant", "startLoops", "startOneOrder"],
     "C10": ["replicaWriteCounter", "increaseRevisionCounter", "getRevisionCounter", "guard_Replica_SetRevisionCounter", "verifyOrder"],
-    "C11": ["cleanerConds", "cleanerSlices", "removeIndexShifts", "removeIndexBody", "removeIndexSnapIndx",
+    "C11": ["cleanerActionLoop", "cleanerPreconditions", "cleanerConds", "cleanerSlices", "removeIndexShifts", "removeIndexBody", "removeIndexSnapIndx",
             "guard_Replica_PrepareRemoveDisk", "guard_Replica_RemoveDiffDisk"],
     "C12": ["createDiskDupGuard", "chainTooLong", "liveChainTooLong", "guard_Replica_RemoveDiffDisk", "guard_Replica_PrepareRemoveDisk"],
     "C13": ["locks_Snapshot", "locks_RemoveReplica", "locks_Revert", "snapshotRefusal", "checkpointCond", "checkpointBody", "removeReplicaTail"],
@@ -110,7 +110,10 @@ PROPS = {
             "runs": [rep("counter", 320, 30, 5000, 45, 3)], "modelled": FS + [
                 "modelled: the counter file is one 4 KiB O_DIRECT block rewritten by a single pwrite under revisionLock; concurrent writers are one atomic step each"]},
     "C11": {"lean": ["JivaVerif.Properties.C11"],
-            "runs": [rep("delete", 640, 36, 10000, 50, 4)], "modelled": FS},
+            "runs": [rep("delete", 640, 36, 10000, 50, 4),
+                     dict(rep("cleaner", 16, 18, 48, 22, 44), **{"search_for": ["cleanerActionLoop", "cleanerPreconditions", "cleanerConds", "cleanerSlices"],
+                                                              "quick": {"n": 16, "len": 18, "timeout": 600}, "thorough": {"n": 48, "len": 22, "timeout": 1200}})],
+            "modelled": FS + ["profile cleaner (thorough tier; in the quick tier only as the search for a failing input when one of the cleaner's T1 facts no longer checks — one run takes a minute because sync.SnapshotDeletionInterval is a constant): the REAL sync.Task.InternalSnapshotCleaner runs one tick against the replica — a controller endpoint reporting the checkpoint, the real sync agent with the real sfold child for the coalesce step, which is made to fail in half of the runs; which snapshot it picked, the chain, flags, data and snapshot images afterwards are compared with the model (pick legal, mark / fold / unlink, or only the mark when the fold failed)"]},
     "C12": {"lean": ["JivaVerif.Properties.C12"],
             "runs": [rep("mgmt", 480, 32, 6000, 45, 6)], "modelled": FS + [
                 "modelled: one copy of the chain metadata; that the *.meta files and the in-memory tables stay equal is checked by the correspondence runs (chain, attributes, data after every request and after reopen), not proved"]},
